@@ -386,7 +386,7 @@ func lexQuotedString(l *lexer) stateFn {
 	l.accept(`"`)
 	i := strings.Index(l.input[l.pos:], `"`)
 	j := strings.IndexAny(l.input[l.pos:], "\r\n")
-	if i < 0 || (j > 0 && j < i) {
+	if i < 0 || (j >= 0 && j < i) {
 		return l.errorf("unclosed quoted string")
 	}
 	l.pos += i + 1 // Include the double quote
